@@ -27,6 +27,7 @@ type HarnessSpec struct {
 	SliceCap  int    `json:"slice_cap"`
 	Facet     string `json:"facet"`
 	NoPrune   bool   `json:"no_prune"`
+	NoReplay  bool   `json:"no_replay"` // harness cannot run natively (uses engine-only vocabulary)
 }
 
 type ObResult struct {
